@@ -41,3 +41,15 @@ package rewrite
 //@ func (ComplexRule).Match
 //@   modifies E:string
 //@   requires req != nil && req.URL != nil && r.RequestMatcher != nil && forall(k, 0, len(r.Exts), len(r.Exts[k]) >= 1)
+
+//@ unit rewrite_handler frames=on props=C12 nilchecks=on filter=`rewrite\.Rewrite\)\.ServeHTTP$`
+//@ // C12: a pass-through middleware - at most one rule rewrites the request, nothing is sent, the next handler is called
+//@ // exactly once and its answer is returned
+//@ use @verif/specs/stdlib.spec:handler_chain
+//@ extern (github.com/tmpim/casket/caskethttp/httpserver.ConfigSelector).Select
+//@ extern invoke:(github.com/tmpim/casket/caskethttp/rewrite.Rule).Rewrite
+//@   modifies URL.Path, URL.RawQuery, URL.Fragment, Request.URL
+//@ func (Rewrite).ServeHTTP
+//@   requires w != nil && r != nil && rw.Next != nil
+//@   modifies ghost:nextCalls, ghost:nextRet, URL.Path, URL.RawQuery, URL.Fragment, Request.URL
+//@   ensures [passes_on_once_returns_its_answer_sends_nothing] nextCalls == old(nextCalls) + 1 && result0 == nextRet && hw == old(hw) && bodyWrites == old(bodyWrites)
